@@ -237,7 +237,7 @@ def correspond(ctx, scale):
         m = qmeta[i]
         failures.append({'key': f'fallback-not-argmax:train={m["train"]}:T={m["T"]}', 'what': f'{m["kw"]} train={m["train"]} T={m["T"]}: deterministic selection returned {m["idx"]}, not the first maximal logit of {m["logits"]}', 'case': m})
     # ---------------- empirical frequencies vs the proven closed form (support)
-    nfreq = (4 if not ctx.thorough else 16) * scale
+    nfreq = (8 if not ctx.thorough else 16) * scale
     for fi in range(nfreq):
         cosine = fi % 2 == 1
         K = 3 if fi % 4 < 2 else 4
@@ -247,11 +247,28 @@ def correspond(ctx, scale):
         x1 = torch.randn(1, 1, 2)
         N = 100000
         xb = x1.expand(50, 2000, 2).contiguous()
+        # every other pair of cases: the call passes `codebook_transform_fn` (the hook of implicit neural codebooks) - a FIXED linear map of the codes,
+        # repeated per position; the nearness scores are then those of the TRANSFORMED codes (cosine: after l2norm), the law is softmax(score / T) all the same
+        with_fn = (fi // 2) % 2 == 1
+        Wt = torch.tensor([[0.9, -0.4], [0.3, 1.1]])
+        ckw = {}
+        if with_fn:
+            from einops import repeat as _repeat
+            ckw['codebook_transform_fn'] = lambda e: _repeat(e @ Wt, 'h c d -> h b n c d', b=50, n=2000)
+            dist['frequency_cases_with_code_transform'] = dist.get('frequency_cases_with_code_transform', 0) + 1
+        Tcall_f = None
+        if fi % 4 == 3:
+            Tcall_f = T = [0.7, 0.3][(fi // 4) % 2]          # per-call temperature on top of the configured one
+            ckw['sample_codebook_temp'] = Tcall_f
         with torch.no_grad():
-            _, idx, _ = vq(xb, freeze_codebook=True)
+            _, idx, _ = vq(xb, freeze_codebook=True, **ckw)
             # exact categorical law from the module's own logits
             xin = vq._codebook.transform_input(vq.project_in(x1))
             cbm = vq._codebook.embed[0]
+            if with_fn:
+                cbm = cbm @ Wt
+                if cosine:
+                    cbm = torch.nn.functional.normalize(cbm, dim=-1)
             logits = (xin[0] @ cbm.T) if cosine else -torch.cdist(xin[0], cbm)
             p = torch.softmax(logits.double() / T, dim=-1).reshape(-1)
         cnt = torch.bincount(idx.reshape(-1), minlength=K).double()
@@ -262,7 +279,7 @@ def correspond(ctx, scale):
         dist['draws'] += N
         ev += 1
         if chi2 > 60.0:
-            failures.append({'key': f'frequencies:T={T}:cosine={cosine}', 'what': f'K={K} T={T} cosine={cosine}: empirical frequencies {cnt.tolist()} over {N} draws deviate from softmax(logits/T) = {p.tolist()} (chi2 = {chi2:.1f})',
+            failures.append({'key': f'frequencies:T={T}:cosine={cosine}:code_transform={with_fn}', 'what': f'K={K} T={T} cosine={cosine} codebook_transform_fn={with_fn}: empirical frequencies {cnt.tolist()} over {N} draws deviate from softmax(logits/T) = {p.tolist()} (chi2 = {chi2:.1f})',
                              'case': dict(K=K, T=T, cosine=cosine, counts=cnt.tolist(), p=p.tolist())})
     return {'evaluations': ev, 'distinct_nontrivial': nt,
             'rule': 'VectorQuantize and ResidualVQ layers, Euclidean / cosine, configured and per-call temperatures {0.1, 0.5, 1, 2, 0, -1}, train / eval, flag on / off: for every token the selected index must win every pairwise Gumbel race for the captured uniforms '
